@@ -200,10 +200,14 @@ pub fn gen(rng: &mut Rng, n: usize, out: &mut Vec<String>) {
             for _ in 0..rng.below(2) {
                 v.push(SIx { prog: *rng.pick(&[1u64, 0]), disc: *rng.pick(&[14i64, 30]), acct0: key as i64, acct1: 99 });
             }
-            let end_idx = match rng.below(8) {
+            let end_idx = match rng.below(10) {
                 0 => rng.below(v.len() as u64 + 2) as usize,
                 1 => cur,
                 2 => v.len(),
+                // indices that only differ from a real instruction's in the bits above 16 / 32: the instruction list is
+                // addressed by a u16 in the sysvar, the argument is a u64
+                3 => 65536 * (1 + rng.below(3) as usize) + rng.below(v.len() as u64 + 1) as usize,
+                4 => (1usize << 32) * (1 + rng.below(2) as usize) + end_pos,
                 _ => end_pos,
             };
             let cur = if rng.chance(1, 10) { rng.below(v.len() as u64) as usize } else { cur };
